@@ -511,6 +511,18 @@ def make_callable(flavour, rec: Recorder, name, sem=None):
     raise ValueError(flavour)
 
 
+class AwIterable:
+    """An awaitable that is iterable as well, like asyncio.Future (whose __iter__ is its __await__): to be awaited."""
+
+    def __init__(self, aw):
+        self.aw = aw
+
+    def __await__(self):
+        return self.aw.__await__()
+
+    __iter__ = __await__
+
+
 class Aw:
     """A user awaitable wrapping a value: logs when it is awaited (C19)."""
 
